@@ -14,6 +14,25 @@ use std::time::Instant;
 
 pub const VERIF: &str = "/verif";
 
+/// Root of the verification tree: VERIF_ROOT if set, else the directory that holds
+/// `properties.jsonl` above the running binary (…/harness/target/release/vprop), else /verif.
+pub fn verif_root() -> &'static Path {
+  static ROOT: std::sync::OnceLock<PathBuf> = std::sync::OnceLock::new();
+  ROOT.get_or_init(|| {
+    if let Ok(r) = std::env::var("VERIF_ROOT") {
+      return PathBuf::from(r);
+    }
+    if let Ok(exe) = std::env::current_exe() {
+      for a in exe.ancestors().skip(1).take(6) {
+        if a.join("properties.jsonl").exists() {
+          return a.to_path_buf();
+        }
+      }
+    }
+    PathBuf::from(VERIF)
+  })
+}
+
 #[derive(Clone, Copy, PartialEq, Eq, Debug)]
 pub enum Tier {
   Quick,
@@ -187,7 +206,7 @@ pub struct Known {
 }
 impl Known {
   pub fn load(prop: &str) -> Known {
-    let p = Path::new(VERIF).join("known_findings.json");
+    let p = crate::engine::verif_root().join("known_findings.json");
     let Ok(text) = std::fs::read_to_string(&p) else {
       return Known::default();
     };
@@ -529,7 +548,7 @@ pub struct ReplayFile {
 }
 
 pub fn write_replay(prop: &str, stage: &str, v: &Violation) -> PathBuf {
-  let dir = Path::new(VERIF).join("replays").join("new");
+  let dir = crate::engine::verif_root().join("replays").join("new");
   let _ = std::fs::create_dir_all(&dir);
   let rf = ReplayFile {
     property: prop.into(),
@@ -704,7 +723,7 @@ impl Report {
       "violations": self.violations.len(),
     });
     if self.cfg.replay.is_none() {
-      let dir = Path::new(VERIF).join("evidence");
+      let dir = crate::engine::verif_root().join("evidence");
       let _ = std::fs::create_dir_all(&dir);
       let path = dir.join(format!("{prop}.json"));
       if let Err(e) = std::fs::write(&path, serde_json::to_string_pretty(&ev).unwrap()) {
@@ -763,7 +782,7 @@ static ISO_COUNTER: std::sync::atomic::AtomicUsize = std::sync::atomic::AtomicUs
 pub fn run_isolated<C: Serialize>(prop: &str, stage: &str, case: &C, timeout: std::time::Duration) -> CheckResult {
   use std::io::Read;
   let n = ISO_COUNTER.fetch_add(1, std::sync::atomic::Ordering::SeqCst);
-  let dir = Path::new(VERIF).join(".work");
+  let dir = crate::engine::verif_root().join(".work");
   let _ = std::fs::create_dir_all(&dir);
   let path = dir.join(format!("{}-iso-{}.json", std::process::id(), n));
   std::fs::write(&path, serde_json::to_vec(case).unwrap()).expect("write isolated case");
